@@ -371,5 +371,7 @@ def run(model, tier):
     from . import c12_ed
     from ..par import run_parallel
     run_parallel([(lambda part: c12_ed.ed_fluxes(model, part), ()), (lambda part: c12_ed.ned_fluxes(model, part, ('nED',)), ()),
-                  (lambda part: c12_ed.ned_fluxes(model, part, ('LM_nED',)), ())], res)
+                  (lambda part: c12_ed.ned_fluxes(model, part, ('LM_nED',)), ()),
+                  (lambda part: c12_ed.ned_fluxes(model, part, ('FLD',), modname='exactpack.solvers.radshocks.fnctn_FLD', var='E',
+                                                  eq=('Er0', 'Er1'), tag='fnctn_FLD'), ())], res)
     return res
